@@ -135,7 +135,7 @@ fn make_stream(comp: &Comp, r: &mut Rng, o: &LZMAOptions) -> Stream {
     let len = r.range(200, 9000) as usize;
     match comp {
         Comp::Framed(c) => {
-            let fam = *r.pick(&[Family::Text, Family::Exe, Family::EditRepeat, Family::Sandwich]);
+            let fam = *r.pick(&[Family::Text, Family::Exe, Family::EditRepeat, Family::Sandwich, Family::Random, Family::Random]);
             let orig = gen::gen_data(r, fam, len);
             let spec = Spec { c: c.clone(), o: o.clone() };
             // one write per 4096 bytes so that chunked/blocked/membered containers really split;
